@@ -471,6 +471,11 @@ pub fn padded_program(idx: u64) -> Program {
     // enclosing branch away from the distance check_branches() computed
     let mut asm_big = 0;
     let forms = idx % 2 == 1;
+    // two hardware registers above the zero page: one only written / strobed, one only read
+    let hw_w = p.vars.len();
+    p.vars.push(VarDecl { name: "TIM64T".into(), kind: VarKind::HwReg(0x296), mem: MemClass::Zp, scope: Scope::Global });
+    let hw_r = p.vars.len();
+    p.vars.push(VarDecl { name: "INTIM".into(), kind: VarKind::HwReg(0x284), mem: MemClass::Zp, scope: Scope::Global });
     let mut pad_forms = |rng: &mut Rng, bytes: i64| -> Vec<Stmt> {
         let mut v = Vec::new();
         let n = (bytes / 5).max(4);
@@ -483,6 +488,15 @@ pub fn padded_program(idx: u64) -> Program {
         v.push(Stmt::Expr(Expr::Assign(LV::Y, Box::new(Expr::Num(rng.below(8) as i32)))));
         for _ in 0..n {
             let i = idx8(rng);
+            if rng.chance(1, 6) {
+                // hardware registers above $ff: absolute addressing, 3 bytes per access
+                v.push(match rng.below(3) {
+                    0 => Stmt::Expr(Expr::Assign(LV::Deref(hw_w), Box::new(lvv(A)))),
+                    1 => Stmt::Expr(Expr::Assign(LV::Var(R), Box::new(Expr::Lv(LV::Deref(hw_r))))),
+                    _ => Stmt::Strobe(hw_w),
+                });
+                continue;
+            }
             let st = match rng.below(12) {
                 0 => Expr::Assign(LV::Idx(ARR, Box::new(i)), Box::new(lvv(A))),
                 1 => Expr::Assign(LV::Var(R), Box::new(Expr::Lv(LV::Idx(ARR, Box::new(i))))),
